@@ -87,6 +87,7 @@ OTHERS = {
     "float0": lambda: 0.0, "float1": lambda: 1.0, "list_state_0": lambda: ["state", 0], "npint0": lambda: np.int64(0),
     "strsub_state": lambda: _StrSub("state"), "intsub0": lambda: _IntSub(0), "namedtuple_state_0": lambda: _NT("state", 0),
     "dict": lambda: {}, "bytes_state": lambda: b"state", "list0": lambda: [0],
+    "npbool1": lambda: np.bool_(True), "npstr_state": lambda: np.str_("state"), "npint1": lambda: np.int32(1),
 }
 
 
@@ -317,6 +318,7 @@ MALFORMED = [
     [0, "state"], [None, 0], [["state"], 0], [True, 0], [{"o": "strsub_state"}, 0], [{"o": "bytes_state"}, 0],   # name not str
     ["state", "0"], ["state", {"o": "float0"}], ["state", True], ["povm", False], ["gate", None], ["mprocess", {"o": "npint0"}],
     ["state", {"o": "intsub0"}], ["povm", [0]], ["gate", {"o": "list0"}],                        # index not int
+    ["povm", {"o": "npbool1"}], ["povm", {"o": "npint1"}], [{"o": "npstr_state"}, 0],           # numpy scalars: not the exact python types
     ["State", 0], ["", 0], ["states", 0], ["POVM", 0], ["measurement", 0], ["mprocess ", 0], ["gat", 0],    # unknown kind
     ["state", 10 ** 30], ["povm", -10 ** 30], ["gate", 4], ["mprocess", 4],                      # far out of range
 ]
@@ -756,6 +758,7 @@ def chk_exec(ctx, case):
         ctx.count("exec", key=json.dumps(case), label="not-constructed", nontrivial=False)
         return
     outc = pool()["outcomes"]
+    attrs0 = {a_: list(getattr(e, a_)) for a_ in ("states", "povms", "gates", "mprocesses", "schedules")}
     for n, qs in enumerate(queries):
         code, a, b = vals[1 + 3 * n: 4 + 3 * n]
         arg = to_py(qs)
@@ -785,6 +788,21 @@ def chk_exec(ctx, case):
             if ps.size != size or abs(ps.sum() - 1.0) > 1e-9 or ps.min() < -1e-9:
                 ctx.violation("exec", "Experiment.calc_prob_dist", "not-normalised",
                               "schedule %s: %d probabilities (expected %d), sum %.12g, min %.3g" % (json.dumps(scheds[arg]), ps.size, size, ps.sum(), ps.min()), rep)
+                continue
+            # history: the experiment is re-used — a second call must execute again and give the same distribution
+            try:
+                ps2 = np.asarray(e.calc_prob_dist(arg), dtype=float).ravel()
+                again = "ok" if (ps2.shape == ps.shape and np.allclose(ps2, ps, rtol=0, atol=1e-12)) else "differs"
+            except Exception as ex:
+                again = type(ex).__name__
+            if again != "ok":
+                ctx.violation("exec", "Experiment.calc_prob_dist", "second-call-" + ("differs" if again == "differs" else "does-not-execute"),
+                              "calc_prob_dist(%s) called twice on the same experiment: second call %s" % (json.dumps(qs), again), rep)
+    # ... and no call (successful or rejected) may change the lists or schedules of the experiment
+    for a_ in attrs0:
+        if not same_list(getattr(e, a_), attrs0[a_]):
+            ctx.violation("exec", "Experiment.calc_prob_dist", "changes-experiment", "attribute %s changed by calc_prob_dist calls" % a_, dict(case))
+            break
 
 
 def sub_exec(ctx):
@@ -810,26 +828,33 @@ def sub_exec(ctx):
 TCLS = ["qst", "povmt", "qpt", "qmpt"]
 
 
-def tomo_build(cls, ns, np_, schedules):
+TOMO_OPTS = [{}, {"on_para_eq_constraint": True, "is_estimation_object": True, "seed_data": 3}]
+
+
+def tomo_build(cls, ns, np_, schedules, opt=0):
+    """opt: index into TOMO_OPTS (non-default constructor options; 3 outcomes instead of 2 for the estimated POVM / MProcess):
+    which schedules are accepted must not depend on them"""
     from quara.protocol.qtomography.standard.standard_qst import StandardQst
     from quara.protocol.qtomography.standard.standard_povmt import StandardPovmt
     from quara.protocol.qtomography.standard.standard_qpt import StandardQpt
     from quara.protocol.qtomography.standard.standard_qmpt import StandardQmpt
     p = pool()
     st, pv = list(p["state"][:ns]), [p["povm"][i] for i in (0, 2, 3, 1)][:np_]     # 2-outcome testers first
+    kw = dict(TOMO_OPTS[opt])
+    nout = 2 if opt == 0 else 3
     if cls == "qst":
-        return StandardQst(pv, schedules=schedules)
+        return StandardQst(pv, schedules=schedules, **kw)
     if cls == "povmt":
-        return StandardPovmt(st, 2, schedules=schedules)
+        return StandardPovmt(st, nout, schedules=schedules, **kw)
     if cls == "qpt":
-        return StandardQpt(st, pv, schedules=schedules)
-    return StandardQmpt(st, pv, 2, schedules=schedules)
+        return StandardQpt(st, pv, schedules=schedules, **kw)
+    return StandardQmpt(st, pv, nout, schedules=schedules, **kw)
 
 
 TSITE = {"qst": "StandardQst", "povmt": "StandardPovmt", "qpt": "StandardQpt", "qmpt": "StandardQmpt"}
 
 
-def run_tomo_batch(ctx, cls, ns, np_, alpha, args_enc, arg_py_fn, replay_fn):
+def run_tomo_batch(ctx, cls, ns, np_, alpha, args_enc, arg_py_fn, replay_fn, opt=0):
     m = ctx.get_model()
     CH = 4000
     for off in range(0, len(args_enc), CH):
@@ -844,11 +869,11 @@ def run_tomo_batch(ctx, cls, ns, np_, alpha, args_enc, arg_py_fn, replay_fn):
             shape_ok = bool(mod[2])
             mcls = CLS[mod[0]]
             try:
-                tomo_build(cls, ns, np_, arg_py_fn(off + n))
+                tomo_build(cls, ns, np_, arg_py_fn(off + n), opt)
                 got = "ok"
             except Exception as ex:
                 got = classify_exc(ex)[0]
-            ctx.count("tomo", key=(cls, ns, np_, tuple(chunk[n])), label="%s-%s" % (cls, mcls), nontrivial=len(chunk[n]) >= 5)
+            ctx.count("tomo", key=(cls, ns, np_, opt, tuple(chunk[n])), label="%s-%s%s" % (cls, mcls, "-opts" if opt else ""), nontrivial=len(chunk[n]) >= 5)
             accepted = (got == "ok")
             if (mcls == "ok") != shape_ok:
                 # impossible by theorems C20_tomo_accepts_iff_shape / C20_class_shapeb_iff / C20_tomo_all_accepted
@@ -890,8 +915,9 @@ def chk_tomo(ctx, case):
                 args_enc.append([0, len(a["str"])] + [ord(ch) for ch in a["str"]]); py.append(a["str"])
             else:
                 args_enc.append([1] + alpha.slist(a["lists"])); py.append([sched_py(s) for s in a["lists"]])
+        opt = case.get("opt", 0)
         run_tomo_batch(ctx, cls, ns, np_, alpha, args_enc, lambda n: py[n],
-                       lambda n: {"cls": cls, "ns": ns, "np": np_, "args": [case["args"][n]]})
+                       lambda n: {"cls": cls, "ns": ns, "np": np_, "opt": opt, "args": [case["args"][n]]}, opt=opt)
         return
     specs = ALPHABETS[case["alpha"]]
     alpha = Alpha(specs)
@@ -926,6 +952,8 @@ def sub_tomo(ctx):
                 for cb in itertools.product(range(len(pool_)), repeat=k):
                     args.append({"lists": [pool_[a] for a in cb]})
             cases.append({"cls": cls, "ns": ns, "np": np_, "args": args})
+            if (ns, np_) == sizes[0] or not _q(ctx):      # the same arguments with NON-DEFAULT constructor options
+                cases.append({"cls": cls, "ns": ns, "np": np_, "args": args, "opt": 1})
     ctx.sample("tomo", cases[3])
     ctx.run_cases("tomo", chk_tomo, cases)
 
@@ -1024,6 +1052,30 @@ def chk_tomo_exec(ctx, case):
             if ps.size != size or abs(ps.sum() - 1.0) > 1e-9 or ps.min() < -1e-9:
                 ctx.violation("tomo_exec", "Experiment.calc_prob_dist", "not-normalised",
                               "%s schedule %s (%s): %d probabilities (expected %d), sum %.12g, min %.3g" % (TSITE[cls], json.dumps(expected[n]), how, ps.size, size, ps.sum(), ps.min()), rep)
+    tomo_fresh_after_fill(ctx, case, cls, ns, np_, arg, exp, attr, true_obj)
+
+
+def tomo_fresh_after_fill(ctx, case, cls, ns, np_, arg, exp, attr, true_obj):
+    """history across INSTANCES: after the estimated object's placeholder of one tomography object's experiment was filled in
+    place, a newly constructed tomography object must again hold a None placeholder (calc_prob_dist -> ValueError)"""
+    try:
+        getattr(exp, attr)[0] = true_obj
+        t2 = tomo_build(cls, ns, np_, "all" if arg == "all" else [sched_py(s) for s in arg])
+        e2 = getattr(t2, "_experiment", None)
+        if e2 is None:
+            return
+        try:
+            e2.calc_prob_dist(0)
+            res = "ok"
+        except Exception as ex:
+            res = type(ex).__name__
+    except Exception as ex:
+        res = "construction:" + type(ex).__name__
+    ctx.count("tomo_exec", key=("fresh", json.dumps(case)), label="%s-fresh-instance" % cls, nontrivial=True)
+    if res != "ValueError":
+        ctx.violation("tomo_exec", TSITE[cls] + ".__init__", "state-leaks-across-instances",
+                      "a NEW %s still sees the object filled into the placeholder of an EARLIER instance's experiment (calc_prob_dist(0): %s, expected ValueError)"
+                      % (TSITE[cls], res), dict(case, how="fresh-instance"))
 
 
 def sub_tomo_exec(ctx):
@@ -1039,6 +1091,86 @@ def sub_tomo_exec(ctx):
                 cases.append({"cls": cls, "ns": ns, "np": np_, "schedules": [rng.choice(full) for _ in range(k)]})
     ctx.sample("tomo_exec", cases[1])
     ctx.run_cases("tomo_exec", chk_tomo_exec, cases)
+
+
+# ---------------------------------------------------------------------------------------------- sub: history
+HIST_SCHEDS = [[["state", 0], ["povm", 0]], [["state", 0], ["gate", 0], ["povm", 1]], [["state", 0], ["mprocess", 0]],
+               [["state", 0], ["mprocess", 0], ["povm", 0]], [["state", 0], ["gate", 0], ["mprocess", 0], ["povm", 1]], [["povm", 0], ["state", 0]]]
+
+
+def chk_history(ctx, case):
+    """no state may leak from one Experiment into another: experiments constructed with some object lists OMITTED (or None)
+    have empty lists there — also after an EARLIER experiment constructed the same way was extended in place through its
+    getters (the idiom the tomography classes use on experiment lists).  Verdicts of newly constructed experiments are
+    compared with the model before and after that history; likewise the tuple-vs-list container of the arguments."""
+    prep(ctx)
+    from quara.qcircuit.experiment import Experiment
+    omit, how, cont = case["omit"], case["how"], case.get("container", "list")
+    full = [[1], [1, 1], [1], [1]]
+    masks = [[] if k in omit else m_ for k, m_ in zip(KINDS, full)]
+    p = pool()
+
+    def kwargs():
+        kw = {}
+        for k, m_ in zip(KINDS, full):
+            if k in omit:
+                if how == "none":
+                    kw[SETTER[k]] = None
+            else:
+                lst = [p[k][i] for i in range(len(m_))]
+                kw[SETTER[k]] = lst
+        return kw
+
+    alpha = Alpha()
+    enc_l = [[1] + alpha.sched(s_) for s_ in HIST_SCHEDS]
+    zs = enc_masks(masks) + alpha.encode() + [len(enc_l)]
+    for l_ in enc_l:
+        zs += l_
+    mods = [unpack(v) for v in ctx.get_model().call("c20.validate", zs)]
+
+    def verdicts():
+        out = []
+        for s_ in HIST_SCHEDS:
+            arg = [sched_py(s_)]
+            if cont == "tuple":
+                arg = (tuple(arg[0]),)
+            try:
+                Experiment(schedules=arg, **kwargs())
+                out.append("ok")
+            except Exception as ex:
+                out.append(classify_exc(ex)[0])
+        return out
+
+    want = [CLS[m_[0]] for m_ in mods]
+    fresh = verdicts()
+    first = Experiment(schedules=[], **kwargs())
+    for k in omit:                                   # extend the EARLIER experiment in place, through its getters
+        getattr(first, SETTER[k]).append(p[k][0])
+    later = verdicts()
+    for n, s_ in enumerate(HIST_SCHEDS):
+        ctx.count("history", key=(json.dumps(case), n), label="%s-%s" % (how, want[n]), nontrivial=True)
+        rep = dict(case, schedule=s_)
+        if fresh[n] != want[n]:
+            ctx.violation("history", "Experiment.__init__", "error-kind" if "ok" not in (fresh[n], want[n]) else
+                          ("accepts-malformed" if fresh[n] == "ok" else "rejects-well-formed"),
+                          "Experiment(schedules=[%s], lists %s %s): implementation %s, model %s" % (json.dumps(s_), omit, how, fresh[n], want[n]), rep)
+        elif later[n] != want[n]:
+            ctx.violation("history", "Experiment.__init__", "state-leaks-across-instances",
+                          "a NEW Experiment(schedules=[%s]) constructed with %s %s gives %s (model: %s) after an earlier experiment constructed "
+                          "the same way was extended in place through its getters; before that history the verdict was right"
+                          % (json.dumps(s_), omit, "omitted" if how == "absent" else "= None", later[n], want[n]), rep)
+
+
+def sub_history(ctx):
+    cases = []
+    for r in range(0, 4):
+        for omit in itertools.combinations(["povm", "gate", "mprocess"], r):
+            for how in ("absent", "none"):
+                cases.append({"omit": list(omit), "how": how})
+    cases.append({"omit": ["gate"], "how": "absent", "container": "tuple"})
+    cases.append({"omit": [], "how": "absent", "container": "tuple"})
+    ctx.sample("history", cases[3])
+    ctx.run_cases("history", chk_history, cases)
 
 
 # ---------------------------------------------------------------------------------------------- sub: witness
@@ -1063,9 +1195,10 @@ def sub_witness(ctx):
 
 
 SUBS = [("witness", sub_witness), ("items", sub_items), ("schedule", sub_schedule), ("lists", sub_lists),
-        ("setters", sub_setters), ("exec", sub_exec), ("tomo", sub_tomo), ("tomo_exec", sub_tomo_exec)]
+        ("setters", sub_setters), ("exec", sub_exec), ("tomo", sub_tomo), ("tomo_exec", sub_tomo_exec),
+        ("history", sub_history)]      # history LAST: with a leaking implementation it pollutes the process for later constructions
 FNS = {"witness": chk_witness, "items": chk_items, "schedule": chk_schedule, "lists": chk_lists, "setters": chk_setters,
-       "exec": chk_exec, "tomo": chk_tomo, "tomo_exec": chk_tomo_exec}
+       "exec": chk_exec, "tomo": chk_tomo, "tomo_exec": chk_tomo_exec, "history": chk_history}
 
 
 def regen_validators(ctx):
